@@ -72,6 +72,8 @@ PROPS = {
             f"{MAT}.drop_old_proposals",
             f"{PM}._base_classes:_Report.adjust_to_bounds",
             "frequenz.sdk.timeseries.battery_pool._battery_pool:BatteryPool.propose_power",
+            "frequenz.sdk.timeseries.battery_pool._battery_pool:BatteryPool.propose_charge",
+            "frequenz.sdk.timeseries.battery_pool._battery_pool:BatteryPool.propose_discharge",
         ],
         lemmas=["proposal_eq_is_key_equality", "proposal_hash_respects_eq", "proposal_lt_strict_total_order_on_keys"],
         bounded=[],
